@@ -7,9 +7,9 @@ HARNESS_TEST = "TestC05"
 COQ_MODEL = ["C05/Check.v", "Gen/C05Facts.v"]
 COQ_PROOF_DEPS = ["C05/Proofs.v", "C05/ProofsBundle.v", "C05/ProofsNonvacuous.v"]
 COQ_OBLIG = ["C05/Property.v", "Gen/C05Oblig.v"]
-CASES_HEADER = "Require Import Nib.C05.Model Nib.C05.Spec Nib.C05.Check."
+CASES_HEADER = "Require Import Nib.C05.Model Nib.C05.Spec Nib.C05.Facts Nib.C05.Check Nib.Gen.C05Facts."
 CASE_TYPE = "case"
-MISMATCH_FN = "mismatch"
+MISMATCH_FN = "mismatch (k_sync_only_evm_addresses current_facts)"
 VIOLATES_FN = "violates"
 RULE = ("case = 1-3 Ethereum txs of a fresh signer (fund 4e5..3e15 unibi), each in its own block through "
         "BeginBlock/DeliverTx/EndBlock/Commit: legacy / access-list / dynamic-fee; gas price / tip / cap incl. 0, below base fee, "
@@ -18,7 +18,7 @@ RULE = ("case = 1-3 Ethereum txs of a fresh signer (fund 4e5..3e15 unibi), each 
         "selfdestruct to B / to self, forward+revert, FunToken precompile bankMsgSend, the same + revert), contract Y "
         "(frame that reverts after a precompile call), driver contract D calling X 2-5 times in one tx (self-destructs to B/R/D/self "
         "interleaved with payments into X and transfers out), contract creation (ok / reverting init). Measured around DeliverTx: "
-        "bank supply(unibi), balances of 14 scenario accounts, GasUsed, VmError. non-trivial = passed the ante handler AND "
+        "bank supply(unibi), balances of 16 scenario accounts, GasUsed, VmError. non-trivial = passed the ante handler AND "
         "(effective price not a multiple of 10^12 or value with sub-unibi remainder or target has code or failed after ante); "
         "distinct = distinct input")
 ASSUMPTIONS = [
@@ -48,6 +48,10 @@ def _script(tx, d, o, xwei_now=None):
     tgt, mode = tx["target"], tx["mode"]
     if tgt in ("eoa", "create"):
         return []
+    if tgt == "w":
+        # wasm precompile execute(W, msg, funds): the bank keeper moves wamt unibi signer -> W (32-byte address)
+        amt = int(tx.get("wamt") or 0)
+        return ["OTransfer 0 14 %s" % _z(amt * K)] if 0 < amt <= before[0] else []
     if tgt == "f":
         # factory: pays fv to the address of its next creation, then creates there with endowment fe
         fwei = (before[12] + vn) * K
@@ -153,9 +157,11 @@ def _obundle(tx, d, o):
 def _otx(tx, d, o):
     sc = _script(tx, d, o)
     etx = _etx(tx, d, sc, o["gasused"])
-    return ("{| o_base_fee := %s; o_block_gas := %s; o_tx := %s; o_out := %s;\n      o_before := [%s]; o_after := [%s]; "
+    # a bank send to the 32-byte address W is mirrored by SyncStateDBWithAccount into the account of its last 20 bytes
+    trunc = "[(14%nat, 15%nat)]" if (tx["target"] == "w" and sc) else "[]"
+    return ("{| o_base_fee := %s; o_block_gas := %s; o_tx := %s; o_out := %s; o_trunc := %s;\n      o_before := [%s]; o_after := [%s]; "
             "o_supply_before := %s; o_supply_after := %s |}"
-            % (_z(d["basefee"]), _z(d["blockgas"]), etx, _outcome(o),
+            % (_z(d["basefee"]), _z(d["blockgas"]), etx, _outcome(o), trunc,
                "; ".join(_z(x) for x in o["before"]), "; ".join(_z(x) for x in o["after"]),
                _z(o["supply_before"]), _z(o["supply_after"])))
 
@@ -210,6 +216,8 @@ def classify(rec):
         ks.append("type=%d" % tx["ty"])
         ks.append("gas=" + tx["gasmode"])
         ks.append("target=" + tx["target"] + ("/mode%d" % tx["mode"] if tx["target"] in ("x", "create") else ""))
+        if tx["target"] == "w":
+            ks.append("w:wasm-execute/funds=%s%s" % ("0" if int(tx.get("wamt") or 0) == 0 else "unibi", "/bad-msg" if tx.get("wbad") else ""))
         if tx["target"] == "f":
             ks.append("f:%s/init=%s/prefund=%s/endow=%s" % ("create2" if tx.get("fc2") else "create", tx.get("finit"),
                                                              "0" if int(tx.get("fv") or 0) == 0 else "yes", "0" if int(tx.get("fe") or 0) == 0 else "yes"))
